@@ -347,6 +347,15 @@ class Server(utils.EventEmitter):
             logger.warning('CCCD value not 2 bytes long')
             return
 
+        # The bearer may have gone away while the write was being processed
+        if att.is_enhanced_bearer(bearer):
+            bearer_is_open = bearer.state == bearer.State.CONNECTED
+        else:
+            bearer_is_open = self.device.lookup_connection(bearer.handle) is bearer
+        if not bearer_is_open:
+            logger.debug('bearer is closed, ignoring subscription update')
+            return
+
         cccds = self.subscribers.setdefault(bearer, {})
         cccds[characteristic.handle] = value
         logger.debug(f'CCCDs: {cccds}')
